@@ -346,6 +346,20 @@ class Extractor:
             if res is None:
                 return ('opaque', self.fb.text(p)[:80])
             return ('not', res) if p['op'] == '!=' else res
+        if k in ('BinaryOperator', 'CXXOperatorCallExpr') and p.get('op') in ('<', '<=', '>', '>='):
+            a, b = (p['c'][0], p['c'][1]) if k == 'BinaryOperator' else (p['c'][1], p['c'][2])
+            ia, ib = self.index_of(a), self.index_of(b)
+            if ia is not None and ib is not None:
+                kind = 'num' if k == 'BinaryOperator' else 'str'
+                op = p['op']
+                # canonical: strict less-than, possibly negated
+                if op == '<':
+                    return ('cmp', ia, ib, kind)
+                if op == '>':
+                    return ('cmp', ib, ia, kind)
+                if op == '>=':
+                    return ('not', ('cmp', ia, ib, kind))
+                return ('not', ('cmp', ib, ia, kind))
         if k in ('CallExpr', 'CXXMemberCallExpr'):
             q = p.get('callee', {}).get('q', '').split('::')[-1]
             if q in ('isCompound', 'isParallel', 'isAtomic', 'isFinal', 'isHistory'):
@@ -431,7 +445,9 @@ class Extractor:
     @staticmethod
     def only_continue(st):
         body = st.get('c', []) if st['k'] == 'CompoundStmt' else [st]
-        return bool(body) and body[-1] is not None and body[-1]['k'] == 'ContinueStmt'
+        # `if (c) break;` in a loop over a container that is sorted by the tested key ends the loop where `continue` would skip
+        # every remaining element: same set of admitted elements (the order of _states/_transitions is C05's business)
+        return bool(body) and body[-1] is not None and body[-1]['k'] in ('ContinueStmt', 'BreakStmt')
 
     def forstmt(self, s, ctx):
         init, cond, body = s['c'][0], s['c'][2], s['c'][-1]
@@ -567,6 +583,8 @@ def show_cond(c):
         return 'root(%s)' % c[1]
     if k == 'exists':
         return 'exists(%s)' % c[1]
+    if k == 'cmp':
+        return '%s<%s%s' % (Extractor.show_index(c[1]), Extractor.show_index(c[2]), '' if c[3] == 'num' else ' (compared as STRINGS)')
     return 'opaque<%s>' % ' '.join(str(c[1]).split())
 
 
